@@ -39,7 +39,9 @@ REQUIRED = ["schedules", "distinct_interleavings", "preempting_schedules",
             "calllater_functions_checked", "wakes_checked", "sync_sections",
             "lock_programs", "lock_waits", "threaded_hub_runs",
             "inline_hub_runs", "burst_handoffs",
-            "handed_over_functions_that_raise"]
+            "handed_over_functions_that_raise", "handoffs_by_cooperative_tasks",
+            "wakes_that_found_the_task_queued", "handoffs_through_the_core_object",
+            "locks_created_locked", "releases_by_a_task_that_does_not_hold_the_lock"]
 TIMEOUT = {"quick": 1500, "thorough": 10800}
 
 
@@ -64,7 +66,41 @@ def hand_off_codes ():
   for n in ("ping", "pongAll", "pong_all", "pong"):
     f = getattr(type(p), n, None)
     if f is not None: fs.append(f)
-  return [f.__code__ for f in fs]
+  codes = [f.__code__ for f in fs]
+  # ... and every other code object that lives in recoco.py (methods, nested
+  # functions, lambdas, whatever a future helper is called): a race must not
+  # become invisible by moving into a function this list does not name
+  import types
+  seen = set(id(c) for c in codes)
+  def walk (co):
+    if id(co) in seen: return
+    seen.add(id(co)); codes.append(co)
+    for k in co.co_consts:
+      if isinstance(k, types.CodeType): walk(k)
+  fn = rc.__file__
+  def of_obj (o, depth=0):
+    if isinstance(o, (staticmethod, classmethod)): o = o.__func__
+    if isinstance(o, property):
+      for g in (o.fget, o.fset, o.fdel):
+        if g is not None: of_obj(g)
+      return
+    co = getattr(o, "__code__", None)
+    if isinstance(co, types.CodeType) and co.co_filename == fn:
+      for k in [co] + [k for k in co.co_consts if isinstance(k, types.CodeType)]:
+        walk(k)
+    elif isinstance(o, type) and getattr(o, "__module__", None) == rc.__name__ and depth < 2:
+      for v in list(vars(o).values()): of_obj(v, depth + 1)
+  # (limited to the classes that take part in the hand-off; construction,
+  #  printing and finalisers are left alone: a switch inside __del__ or in the
+  #  middle of creating the hub thread wedges the controlled run)
+  for cls in (rc.Scheduler, rc.CallLaterTask, rc.ScheduleTask, rc.SelectHub,
+              rc.Synchronizer, rc.SyncTask):
+    for name, v in list(vars(cls).items()):
+      if name.startswith("__") and name not in ("__enter__", "__exit__"): continue
+      if name in ("quit", "_threadProc") and False: continue
+      of_obj(v, 1)
+  # (the first len(fs) entries are the named ones)
+  return codes
 
 
 _codes = {}
@@ -117,9 +153,23 @@ def run_scenario (scn, schedule, policy, seed):
     # a cooperative ticker whose steps must never fall inside a sync section
     class Ticker (rc.BaseTask):
       def run (self_):
+        coop = list(scn.get("coop", ()))
         for i in range(scn.get("ticks", 6)):
           order[0] += 1
           obs["log"].append(("step", "ticker", order[0]))
+          if coop:
+            # the cooperative side takes part in the hand-off too: a task
+            # wakes another task / hands a function over while foreign
+            # threads do the same
+            foreign_op("tk", coop.pop(0), seqs)
+          yield 0
+        yield False
+    class Spinner (rc.BaseTask):
+      # a task that is runnable all the time: a wake-up always finds it queued
+      def run (self_):
+        while not state.get("spin_stop") and not obs.get("foreign_done") \
+            and state.get("spins", 0) < 150:
+          state["spins"] = state.get("spins", 0) + 1
           yield 0
         yield False
     class Sleeper (rc.BaseTask):
@@ -142,7 +192,11 @@ def run_scenario (scn, schedule, policy, seed):
             yield 0.001
             state["naps_done"] = state.get("naps_done", 0) + 1
           yield False
-      Napper().start(sched, fast=True)
+      state["napper_task"] = Napper()
+      state["napper_task"].start(sched, fast=True)
+    if any("wake_spin" in ops for ops in scn["threads"]) or "wake_spin" in scn.get("coop", ()):
+      spinner = Spinner(); spinner.start(sched, fast=True)
+      state["spinner"] = spinner
     tick = Ticker(); tick.start(sched, fast=True)
     sleeper = Sleeper(); sleeper.start(sched, fast=True)
     state["sleeper"] = sleeper
@@ -152,7 +206,6 @@ def run_scenario (scn, schedule, policy, seed):
         started[0] = True
         sched.runThreaded(True)
         obs["sched_lid"] = sched._thread.lid
-    if scn["start_first"]: start_sched()
     def foreign (tag, ops):
       ops = list(ops)
       while ops:
@@ -169,7 +222,16 @@ def run_scenario (scn, schedule, policy, seed):
           start_sched()
     seqs = {}
     EXC = dict(IndexError=IndexError, KeyError=KeyError, ValueError=ValueError,
-               StopIteration=StopIteration, LookupError=LookupError)
+               StopIteration=StopIteration, LookupError=LookupError,
+               SystemExit=SystemExit, GeneratorExit=GeneratorExit)
+    import types as _types
+    import pox.core as _pc
+    class _Core (object):
+      scheduler = sched
+      call_later = _pc.POXCore.call_later
+      callLater = _pc.POXCore.callLater
+      raiseLater = _pc.POXCore.raiseLater
+    CORE = _Core()
     def foreign_op (tag, op, seqs):
         if op in ("cl", "rl", "clx"):
           seq = seqs[tag] = seqs.get(tag, 0) + 1
@@ -184,7 +246,19 @@ def run_scenario (scn, schedule, policy, seed):
               obs["raised"] = obs.get("raised", 0) + 1
               raise EXC[scn.get("exc", "ValueError")]("handed-over function fails on purpose")
           if op in ("cl", "clx"):
-            sched.callLater(f)
+            if scn.get("via_core"):
+              # through the public entry points of the core object
+              CORE.call_later(f) if seq % 2 else CORE.callLater(f)
+            elif seq % 3 == 0:
+              # arguments travel with the function
+              def g (a, b=None, _f=f):
+                if (a, b) != ("pos", "kw"):
+                  obs["violations"].append(("call-later arguments lost",
+                                            "got %r %r" % (a, b)))
+                return _f()
+              sched.callLater(g, "pos", b="kw")
+            else:
+              sched.callLater(f)
           else:
             import pox.lib.revent.revent as R
             class Ev (R.Event): pass
@@ -192,7 +266,13 @@ def run_scenario (scn, schedule, policy, seed):
               _eventMixin_events = set([Ev])
             src = Src()
             src.addListener(Ev, lambda e: f())
-            sched.callLater(src.raiseEvent, Ev)
+            if scn.get("via_core"): CORE.raiseLater(src, Ev)
+            else: sched.callLater(src.raiseEvent, Ev)
+        elif op == "wake_spin":
+          obs["spin_wakes"] = obs.get("spin_wakes", 0) + 1
+          if state["spinner"] in sched._ready: obs["spin_wakes_found_queued"] = \
+              obs.get("spin_wakes_found_queued", 0) + 1
+          sched.schedule(state["spinner"])
         elif op == "wake":
           state["last_wake_runs"] = state.get("sleeper_runs", 0)
           state["wake_pending"] = True
@@ -209,6 +289,7 @@ def run_scenario (scn, schedule, policy, seed):
             ctl.yield_point("inside-sync")
             order[0] += 1
             obs["log"].append(("exit", tag, order[0]))
+    if scn["start_first"]: start_sched()
     ths = []
     for i, ops in enumerate(scn["threads"]):
       t = ilv.CThread(target=foreign, args=("t%d" % i, ops))
@@ -247,7 +328,21 @@ def run_scenario (scn, schedule, policy, seed):
       if not obs.get("foreign_done"):
         # foreign threads blocked forever with nothing enabled
         return True
+      want_naps = scn.get("napper", 0)
+      if state.get("naps_done", 0) < want_naps and state.get("nap_idles", 0) < 50:
+        # a timed wait is still outstanding: nothing to flag as long as the
+        # wait itself is what everybody is blocked on (the hub's select)
+        state["nap_idles"] = state.get("nap_idles", 0) + 1
+        if state.get("napper_task") in sched._ready:
+          obs["violations"].append((
+            "hand-off relies on the polling timeout",
+            "a task whose timed wait expired sits in the ready queue while "
+            "every thread is blocked (the hub returned it without waking the "
+            "scheduler)"))
+          return False
+        return True
       obs["phase"] = "shutdown"
+      state["spin_stop"] = True
       sched._hasQuit = True
       return True
     return True
@@ -257,6 +352,7 @@ def run_scenario (scn, schedule, policy, seed):
     ok = ctl.run(main, wall_timeout=30)
   finally:
     rc.threading, rc.Thread, rc.defaultScheduler, rc.select = saved
+  obs["naps_done"] = state.get("naps_done", 0)
   obs["ok"] = ok
   obs["failure"] = ctl.failure
   obs["trace"] = ctl.trace
@@ -291,6 +387,16 @@ def judge (scn, obs, fire, rep):
   for i, ops in enumerate(scn["threads"]):
     n = sum(1 for o in ops if o in ("cl", "rl", "clx")) + 3 * ops.count("sbatch")
     if n: want["t%d" % i] = n
+  n = sum(1 for o in scn.get("coop", ()) if o in ("cl", "rl", "clx"))
+  if n:
+    want["tk"] = n; rep.count("handoffs_by_cooperative_tasks", n)
+  if obs.get("spin_wakes_found_queued"):
+    rep.count("wakes_that_found_the_task_queued", obs["spin_wakes_found_queued"])
+  if scn.get("via_core"): rep.count("handoffs_through_the_core_object")
+  if scn.get("napper"):
+    if obs.get("naps_done", 0) != scn["napper"] and not obs["violations"]:
+      fire("timed wait of a cooperative task never returned",
+           "%d of %d naps finished" % (obs.get("naps_done", 0), scn["napper"])); return
   got = {}
   for (tag, seq, lid, o) in obs["calls"]:
     got.setdefault(tag, []).append((o, seq, lid))
@@ -311,7 +417,8 @@ def judge (scn, obs, fire, rep):
              "thread %s seq %d ran on logical thread %r (scheduler is %r)" %
              (tag, s, lid, obs["sched_lid"])); return
   # wake-ups
-  nwake = sum(1 for ops in scn["threads"] for o in ops if o == "wake")
+  nwake = sum(1 for ops in scn["threads"] for o in ops if o == "wake") + \
+      sum(1 for o in scn.get("coop", ()) if o == "wake")
   if nwake:
     rep.count("wakes_checked", nwake)
     runs = obs["wakes"]
@@ -400,6 +507,13 @@ SCENARIOS = [
   dict(threads=[["sbatch"]], threaded_hub=True, start_first=True, exc="IndexError"),
   dict(threads=[["clx", "cl"], ["cl"]], threaded_hub=False, start_first=True, exc="StopIteration"),
   dict(threads=[["sbatch"], ["clx"]], threaded_hub=True, start_first=True, exc="KeyError"),
+  dict(threads=[["wake_spin"], ["wake_spin"]], threaded_hub=True, start_first=True),
+  dict(threads=[["wake_spin", "cl"]], threaded_hub=False, start_first=True, coop=["wake_spin"]),
+  dict(threads=[["cl"], ["wake"]], threaded_hub=True, start_first=True, coop=["cl", "wake", "cl"]),
+  dict(threads=[["cl", "rl"], ["cl"]], threaded_hub=True, start_first=True, via_core=True),
+  dict(threads=[["sync", "sync"], ["cl"]], threaded_hub=True, start_first=True, ticks=14),
+  dict(threads=[["sync2", "sync"]], threaded_hub=False, start_first=True, ticks=14),
+  dict(threads=[["sbatch", "sync"], ["cl"]], threaded_hub=True, start_first=True, exc="SystemExit", ticks=10),
 ]
 
 
@@ -416,6 +530,12 @@ def run_lock_program (case, rep):
   nlocks = case["nlocks"]
   locks = [rc.Lock() for _ in range(nlocks)]
   holder = [None] * nlocks
+  if case.get("locked0"):
+    # a lock that is created locked (nobody in particular holds it): whoever
+    # releases it hands it to a waiter
+    locks[0] = rc.Lock(True)
+    holder[0] = "someone"
+    rep.count("locks_created_locked")
   waiting = [set() for _ in range(nlocks)]
   log = []
   done = set()
@@ -450,9 +570,20 @@ def run_lock_program (case, rep):
           elif holder[i] is None:
             bad.append("non-blocking acquire failed on a free lock")
           log.append((tid, "fail", i))
+      elif st[0] == "R":
+        # release without being the holder (as with threading.Lock, that is
+        # allowed): only when somebody holds it, a free lock refuses
+        i = st[1]
+        if holder[i] not in (None, "handoff") and i not in held:
+          had_waiters = set(waiting[i])
+          holder[i] = "handoff" if had_waiters else None
+          log.append((tid, "rel", i, sorted(had_waiters)))
+          rep.count("releases_by_a_task_that_does_not_hold_the_lock")
+          yield locks[i].release()
+          hook_check()
       elif st[0] == "r":
         i = st[1]
-        if i in held:
+        if i in held and holder[i] == tid:
           held.remove(i)
           had_waiters = set(waiting[i])
           # with waiters the lock is handed over, it never becomes free
@@ -461,6 +592,7 @@ def run_lock_program (case, rep):
           yield locks[i].release()
           hook_check()
     for i in list(held):
+      if holder[i] != tid: continue       # somebody else released it for us
       holder[i] = "handoff" if waiting[i] else None
       log.append((tid, "rel", i, sorted(waiting[i])))
       yield locks[i].release()
@@ -490,6 +622,14 @@ def run_lock_program (case, rep):
            "lock %d: waiting tasks %r, nobody holds it; log %r" %
            (i, sorted(waiting[i]), log[-10:]))
       return True
+  # every task ran to its end, except those waiting for a lock that is held
+  for tid in range(len(case["tasks"])):
+    if tid in done: continue
+    if any(tid in waiting[i] and holder[i] not in (None, "handoff") for i in range(nlocks)):
+      continue
+    fire("a task of the lock program vanished",
+         "task %d neither finished nor waits for a held lock; log %r" % (tid, log[-8:]))
+    return True
   # a release with waiters hands the lock to exactly one of them
   for k, e in enumerate(log):
     if e[1] == "rel" and e[3]:
@@ -514,6 +654,26 @@ def gen_lock_programs (ntasks, nlocks, shard, nshards):
     yield dict(kind="lock", nlocks=nlocks, tasks=[list(c) for c in combo])
 
 
+def gen_lock_sample (rng, n):
+  """Sampled programs beyond the enumerated ones: up to four tasks, releases
+  by non-holders, a lock that starts out locked."""
+  steps = [("a", 0, True), ("a", 0, True), ("r", 0), ("y",), ("a", 0, False),
+           ("R", 0), ("a", 1, True), ("r", 1)]
+  for _ in range(n):
+    nt = rng.choice([2, 3, 4, 4])
+    tasks = [[list(rng.choice(steps)) for _ in range(rng.randrange(1, 4))]
+             for _ in range(nt)]
+    case = dict(kind="lock", nlocks=2, tasks=tasks)
+    if rng.random() < 0.3:
+      case["locked0"] = True
+      tasks[-1] = [["y"], ["R", 0]] + tasks[-1][:1]
+    if rng.random() < 0.3:
+      # one holder, everybody else queues up behind it
+      tasks[0] = [["a", 0, True], ["y"], ["y"], ["r", 0]]
+      for t in tasks[1:]: t.insert(0, ["a", 0, True])
+    yield case
+
+
 def do_lock_case (case, rep):
   try:
     nt = run_lock_program(case, rep)
@@ -521,7 +681,7 @@ def do_lock_case (case, rep):
     rep.violation("C07 harness-visible exception",
                   traceback.format_exc()[-900:], case)
     nt = True
-  rep.case(repr(case["tasks"]).encode() + bytes([case["nlocks"]]),
+  rep.case(repr((case["tasks"], case.get("locked0"))).encode() + bytes([case["nlocks"]]),
            nontrivial=bool(nt))
 
 
@@ -537,6 +697,7 @@ def plan (tier, seed):
     sp += [dict(mode="lock", ntasks=2, nlocks=1, shard=i, nshards=2) for i in range(2)]
     sp += [dict(mode="lock", ntasks=2, nlocks=2, shard=i, nshards=40) for i in range(2)]
     sp += [dict(mode="lock", ntasks=3, nlocks=1, shard=i, nshards=600) for i in range(2)]
+    sp += [dict(mode="locksample", n=3000, sub=i) for i in range(2)]
     sp += [dict(mode="mass", sizes=[1, 2, 1023, 1024, 1025, 2048, 3000])]
     # (the scenarios with a napping task: more of the budget, two preemptions)
     for i in range(len(SCENARIOS)):
@@ -557,6 +718,7 @@ def plan (tier, seed):
   sp += [dict(mode="lock", ntasks=2, nlocks=1, shard=0, nshards=1)]
   sp += [dict(mode="lock", ntasks=2, nlocks=2, shard=i, nshards=8) for i in range(8)]
   sp += [dict(mode="lock", ntasks=3, nlocks=1, shard=i, nshards=32) for i in range(16)]
+  sp += [dict(mode="locksample", n=150000, sub=i) for i in range(8)]
   sp += [dict(mode="mass", sizes=list(range(1000 + 8 * i, 1000 + 8 * i + 8)) +
               [2040 + i, 4090 + i, 8190 + i, 3 + i]) for i in range(8)]
   return sp
@@ -652,6 +814,12 @@ def run (spec, rep):
                         "c07/%d/%d/%d" % (spec["seed"], spec["sub"], i), rep)
       if obs is not None: sigs.add((repr(scn), obs["sig"]))
     rep.count("distinct_interleavings", len(sigs))
+  elif spec["mode"] == "locksample":
+    rng = random.Random("c07/locks/%d/%d" % (spec["seed"], spec["sub"]))
+    first = True
+    for case in gen_lock_sample(rng, spec["n"]):
+      do_lock_case(case, rep)
+      if first: rep.sample(case); first = False
   else:
     first = True
     for case in gen_lock_programs(spec["ntasks"], spec["nlocks"], spec["shard"],
